@@ -16,6 +16,7 @@ type symwriteCase struct {
 	Locals  []Bytes      `json:"locals"`
 	Forest  []Val        `json:"forest"`
 	Split   int          `json:"split"` // Finish after this many values too (0 = a single batch)
+	Foreign bool         `json:"foreign"` // every token with text also carries a symbol ID taken from elsewhere; the text must win
 }
 
 func cmdSymwrite(in *bufio.Scanner, out *bufio.Writer) error {
@@ -40,6 +41,10 @@ func cmdSymwrite(in *bufio.Scanner, out *bufio.Writer) error {
 				w = ion.NewBinaryWriterLST(&buf, ion.NewLocalSymbolTable(imps, strs(c.Locals)))
 			}
 			var first error
+			if c.Foreign {
+				foreignSID = 11
+				defer func() { foreignSID = 0 }()
+			}
 			for k, v := range c.Forest {
 				if k == c.Split && k > 0 {
 					if err := w.Finish(); err != nil && first == nil {
